@@ -30,7 +30,7 @@ CLAIMED = {
   'Trusted: Lean kernel, standard axioms; the ElementTree-based extraction of the tree from the dumped file in the harness; expat and the XML printer.'),
  'C03': (
   'Lean 4 model of _export.py over the relational model, tied by correspondence (export of real database vs model) and a document-level oracle (export then load then re-add); theorems on export composed with _insert_lexicon',
-  'Random databases (lexicons with dependencies, proposed ILIs with/without definitions, frames in both encodings, side-by-side versions, metadata) are exported by the real library in every LMF version and compared with the model export; the exported file is loaded and compared with the added document, and re-added to an empty database whose observation must coincide. Proved in Props/C03.lean: lexicon attributes and metadata survive add-then-export (C03_lexicon_attributes), dependencies are exported exactly and round-trip through _insert_lexicon (C03_dependencies, C03_dependencies_round_trip), only own entries are exported, ILI / proposed-ILI encoding incl. proposed ILIs without definition (C03_ili_encoding, C03_proposed_ili), sense-frame links are preserved exactly in the 1.0 encoding (C03_frame_links_1_0) and the >=1.1 subcat encoding (C03_subcat_links). The full statement export o add = id is decided by correspondence + oracle (partial proof). Known finding F2-residual (frames without id in >=1.1 exports).',
+  'Random databases (lexicons with dependencies, proposed ILIs with/without definitions, frames in both encodings, side-by-side versions, metadata) are exported by the real library in every LMF version and compared with the model export; the exported file is loaded and compared with the added document, and re-added to an empty database whose observation must coincide. Proved in Props/C03.lean: C03_entries_round_trip (end to end: add a plain lexicon then export it in any version: the exported entries are the entries of the document in order with the same ids, lemmas (form, part of speech, script) and further forms (form, id, script)); lexicon attributes and metadata survive add-then-export (C03_lexicon_attributes), dependencies are exported exactly and round-trip through _insert_lexicon (C03_dependencies, C03_dependencies_round_trip), only own entries are exported, ILI / proposed-ILI encoding incl. proposed ILIs without definition (C03_ili_encoding, C03_proposed_ili), sense-frame links are preserved exactly in the 1.0 encoding (C03_frame_links_1_0) and the >=1.1 subcat encoding (C03_subcat_links). The full statement export o add = id is decided by correspondence + oracle (partial proof). Known finding F2-residual (frames without id in >=1.1 exports).',
   'Trusted: Lean kernel, standard axioms; SQLite index order of find_syntactic_behaviours is modelled (sorted by frame string) and validated by correspondence.'),
  'C04': (
   'Lean 4 theorems on the query layer (every query stays inside the selected lexicons, frame lemmas for owner-filtered tables) + correspondence/oracle over multi-lexicon worlds',
